@@ -44,6 +44,7 @@ func init() {
 			{Name: "c03.dispatch", Impl: c03Dispatch},
 			{Name: "c03.msg.marshal", Impl: c03MsgMarshal},
 			{Name: "c03.msg.unmarshal", Impl: c03MsgUnmarshal},
+			{Name: "c03.msg.remarshal", Impl: c03MsgRemarshal},
 		},
 		Gen: genC03,
 	})
@@ -472,6 +473,30 @@ func c03MsgUnmarshal(a []string) string {
 	return fmt.Sprintf("ok %s %s %d %s %d %s", showHeader(m.Header), kindLine(m.Command), p.WordCount, hx(p.GetBytesStream()), d.ByteCount, hx(d.Bytes))
 }
 
+// <bytes> <k>: decode into a Message, then Marshal it k times: "encoding the same message again yields identical
+// bytes" also for a message that came off the wire (a decode error, or a command whose own Marshal refuses, leaves
+// nothing to compare: "ok same")
+func c03MsgRemarshal(a []string) string {
+	m := message.NewMessage()
+	if err := m.Unmarshal(exact(unhx(a[0]))); err != nil {
+		return "ok same"
+	}
+	k, _ := strconv.Atoi(a[1])
+	var first []byte
+	firstErr := false
+	for i := 0; i < k; i++ {
+		b, err := m.Marshal()
+		if i == 0 {
+			first, firstErr = b, err != nil
+			continue
+		}
+		if (err != nil) != firstErr || (err == nil && string(b) != string(first)) {
+			return fmt.Sprintf("ok differ call-1=%d-bytes call-%d=%d-bytes", len(first), i+1, len(b))
+		}
+	}
+	return "ok same"
+}
+
 // c03Specific runs the command-specific part of Message.Unmarshal in isolation: when the header, the
 // factory and the two block decoders (all real code) accept the message, the outcome class of the concrete
 // command's Unmarshal is that of its own field reading.  Otherwise "ok" (the model never looks at it).
@@ -797,7 +822,12 @@ func genC03(r *Rng, tier string) []Case {
 			unm(append(c03HeaderBytes(rx, uint8(code), reply == 1), 0, 0, 0), "dispatch.unmarshal-empty-blocks")
 			if thorough || code%4 == 0 {
 				w := rx.Bytes(2 * rx.Intn(6))
-				unm(append(c03HeaderBytes(rx, uint8(code), reply == 1), c03Blocks(w, rx.Bytes(rx.Intn(12)))...), "dispatch.unmarshal-random-blocks")
+				rb := append(c03HeaderBytes(rx, uint8(code), reply == 1), c03Blocks(w, rx.Bytes(rx.Intn(12)))...)
+				unm(rb, "dispatch.unmarshal-random-blocks")
+				if c03Specific(rb) != "panic" {
+					ra := []string{hx(rb), "3"}
+					cs = append(cs, Case{Op: "c03.msg.remarshal", MArgs: ra, SArgs: ra, NoM: true, Tag: "repeat.decoded-message"})
+				}
 			}
 		}
 	}
